@@ -13,23 +13,27 @@ Local Open Scope N_scope.
 Ltac Zify.zify_post_hook ::= Z.div_mod_to_equations.
 
 (* learn_phrase calls estimate with orig_freq = the phrase's own frequency *)
-Lemma estimate_raises f m u : f <= m -> m < 4000000000 -> estimate f f m = Ok u ->
+Lemma estimate_raises f m u : f <= m -> estimate f f m = Ok u ->
   f <= MAX_USER_FREQ -> f <= u /\ (f < MAX_USER_FREQ -> f < u) /\ u <= MAX_USER_FREQ.
 Proof.
-  unfold estimate, MAX_USER_FREQ, SHORT_INCREASE_FREQ, U32_MAX. intros Hfm Hm H Hf.
+  unfold estimate, MAX_USER_FREQ, SHORT_INCREASE_FREQ, U32_MAX. intros Hfm H Hf.
   destruct (N.ltb m f) eqn:E1; [discriminate|].
-  destruct (N.leb m f) eqn:E2;
-    match type of H with context[N.ltb ?a ?b] => destruct (N.ltb a b) eqn:E3 end; try discriminate;
-    inversion H; subst; clear H; lia.
+  destruct (N.leb m f) eqn:E2; inversion H; subst; clear H; lia.
 Qed.
 
-Lemma estimate_never_panics f m : f <= m -> m < 4000000000 -> exists u, estimate f f m = Ok u.
+(* whatever the frequencies (any u32, and beyond): the addition saturates *)
+Lemma estimate_never_panics f m : f <= m -> exists u, estimate f f m = Ok u.
 Proof.
-  unfold estimate, SHORT_INCREASE_FREQ, U32_MAX. intros Hfm Hm.
-  destruct (N.ltb m f) eqn:E1; [apply N.ltb_lt in E1; lia|].
-  destruct (N.leb m f) eqn:E2;
-    match goal with |- context[N.ltb ?a ?b] => destruct (N.ltb a b) eqn:E3 end; eauto;
-    apply N.ltb_lt in E3; lia.
+  unfold estimate. intros Hfm.
+  destruct (N.ltb m f) eqn:E1; [apply N.ltb_lt in E1; lia|]. eauto.
+Qed.
+
+(* a frequency above MAX_USER_FREQ (a system phrase may carry any u32) is capped, never wrapped *)
+Lemma estimate_saturates f m u : f <= m -> estimate f f m = Ok u -> u = N.min (f + (if N.leb m f then N.min ((m - f) / 5 + 1) 10 else N.max ((m - f) / 5 + 1) 10)) MAX_USER_FREQ.
+Proof.
+  unfold estimate, MAX_USER_FREQ, SHORT_INCREASE_FREQ, U32_MAX. intros Hfm H.
+  destruct (N.ltb m f) eqn:E1; [discriminate|].
+  destruct (N.leb m f) eqn:E2; inversion H; subst; clear H; lia.
 Qed.
 
 (* ---- "repeating the choice at most 64 times makes X the most frequent" ---- *)
@@ -40,12 +44,11 @@ Definition learn_step (m f : N) : N :=
   let base := (mx - f) / 5 + 1 in
   N.min (f + (if N.leb mx f then N.min base SHORT_INCREASE_FREQ else N.max base SHORT_INCREASE_FREQ)) MAX_USER_FREQ.
 
-Lemma learn_step_is_estimate m f : f <= N.max m f -> N.max m f < 4000000000 -> estimate f f (N.max m f) = Ok (learn_step m f).
+Lemma learn_step_is_estimate m f : f <= N.max m f -> estimate f f (N.max m f) = Ok (learn_step m f).
 Proof.
-  intros H1 H2. unfold estimate, learn_step, U32_MAX, SHORT_INCREASE_FREQ.
+  intros H1. unfold estimate, learn_step, U32_MAX, SHORT_INCREASE_FREQ, MAX_USER_FREQ.
   destruct (N.ltb (N.max m f) f) eqn:E1; [apply N.ltb_lt in E1; lia|].
-  match goal with |- context[N.ltb 4294967295 ?b] => destruct (N.ltb 4294967295 b) eqn:E3 end; [|reflexivity].
-  apply N.ltb_lt in E3. destruct (N.leb (N.max m f) f); lia.
+  f_equal. destruct (N.leb (N.max m f) f); lia.
 Qed.
 
 (* the gap to the best homophone shrinks by a fifth (at least by 10) per repetition *)
@@ -221,25 +224,22 @@ Proof. unfold commit. intros H Hc. rewrite H in Hc. cbn [obind] in Hc. inv_ok Hc
    lower than before, and higher below the cap *)
 Lemma learn_phrase_updates (s : shared') k t (s' : shared') ok p ps :
   length k = length t -> do_lookup dops (dict s) false k = p :: ps ->
-  (forall q, In q (p :: ps) -> (snd q < 4000000000)%N) ->
   learn_phrase dops s k t = Ok (s', ok) ->
   let pf := match find (fun q => text_eqb (fst q) t) (p :: ps) with Some q => snd q | None => 0%N end in
   exists uf, dict s' = do_update dops (dict s) k t pf uf (lifetime s) /\ ok = true /\
              (pf <= MAX_USER_FREQ -> pf <= uf /\ (pf < MAX_USER_FREQ -> pf < uf))%N.
 Proof.
-  intros Hlen Hl Hb H. unfold learn_phrase in H. rewrite Hlen, Nat.eqb_refl in H. cbn [negb] in H. rewrite Hl in H.
+  intros Hlen Hl H. unfold learn_phrase in H. rewrite Hlen, Nat.eqb_refl in H. cbn [negb] in H. rewrite Hl in H.
   cbv zeta. set (pf := match find (fun q => text_eqb (fst q) t) (p :: ps) with Some q => snd q | None => 0%N end) in *.
   bind_ok H uf Hu. inv_ok H. exists uf. split; [reflexivity|]. split; [reflexivity|]. intros Hcap.
-  assert (Hmax : forall l acc, (acc <= max_freq_of l acc)%N /\ (forall q, In q l -> snd q <= max_freq_of l acc)%N /\
-                               ((forall q, In q l -> (snd q < 4000000000)%N) -> (acc < 4000000000)%N -> (max_freq_of l acc < 4000000000)%N)).
-  { induction l as [|x l IH]; intros acc; cbn [max_freq_of]; [repeat split; try lia; intros q []|].
-    destruct (IH (N.max acc (snd x))) as (I1 & I2 & I3). repeat split; [lia | |].
-    - intros q [<-|Hq]; [lia | now apply I2].
-    - intros Hq Ha. apply I3; [intros q Hin; apply Hq; now right|]. specialize (Hq x (or_introl eq_refl)). lia. }
-  destruct (Hmax (p :: ps) 0%N) as (_ & M2 & M3).
+  assert (Hmax : forall l acc, (acc <= max_freq_of l acc)%N /\ (forall q, In q l -> snd q <= max_freq_of l acc)%N).
+  { induction l as [|x l IH]; intros acc; cbn [max_freq_of]; [split; [lia | intros q []]|].
+    destruct (IH (N.max acc (snd x))) as (I1 & I2). split; [lia|].
+    intros q [<-|Hq]; [lia | now apply I2]. }
+  destruct (Hmax (p :: ps) 0%N) as (_ & M2).
   assert (Hpf : (pf <= max_freq_of (p :: ps) 0)%N).
   { subst pf. destruct (find (fun q => text_eqb (fst q) t) (p :: ps)) as [q|] eqn:Ef; [apply find_some in Ef as [Hin _]; now apply M2 | lia]. }
-  destruct (estimate_raises pf (max_freq_of (p :: ps) 0) uf Hpf (M3 Hb ltac:(lia)) Hu Hcap) as (R1 & R2 & _). auto.
+  destruct (estimate_raises pf (max_freq_of (p :: ps) 0) uf Hpf Hu Hcap) as (R1 & R2 & _). auto.
 Qed.
 
 End AutoLearn.
